@@ -1,0 +1,76 @@
+//! Read-only views and a flags accessor for the verification harness.
+//! Compiled only with `--cfg ax_verif`; nothing here is used by the emulator itself.
+use crate::axecutor::Axecutor;
+use crate::helpers::trace::TraceVariant;
+
+/// One trace entry in structured (non-text) form: (instr_ip, target, variant, level, count)
+/// variant: 0 = call, 1 = return, 2 = jump
+pub type VerifTraceEntry = (u64, u64, u8, i64, u64);
+
+impl Axecutor {
+    pub fn verif_rflags(&self) -> u64 {
+        self.state.rflags
+    }
+
+    pub fn verif_set_rflags(&mut self, value: u64) {
+        self.state.rflags = value;
+    }
+
+    pub fn verif_finished(&self) -> bool {
+        self.state.finished
+    }
+
+    pub fn verif_executed_instructions_count(&self) -> u64 {
+        self.state.executed_instructions_count
+    }
+
+    pub fn verif_max_instructions(&self) -> Option<u64> {
+        self.state.max_instructions
+    }
+
+    pub fn verif_code_end_addr(&self) -> u64 {
+        self.code_end_addr
+    }
+
+    pub fn verif_stack_top(&self) -> u64 {
+        self.stack_top
+    }
+
+    pub fn verif_hooks_running(&self) -> bool {
+        self.hooks.running
+    }
+
+    pub fn verif_call_stack(&self) -> Vec<u64> {
+        self.state.call_stack.clone()
+    }
+
+    pub fn verif_trace(&self) -> Vec<VerifTraceEntry> {
+        self.state
+            .trace
+            .iter()
+            .map(|e| {
+                (
+                    e.instr_ip,
+                    e.target,
+                    match e.variant {
+                        TraceVariant::Call => 0u8,
+                        TraceVariant::Return => 1u8,
+                        TraceVariant::Jump => 2u8,
+                    },
+                    e.level as i64,
+                    e.count,
+                )
+            })
+            .collect()
+    }
+
+    pub fn verif_symbols(&self) -> Vec<(u64, String)> {
+        let mut v: Vec<(u64, String)> = self
+            .symbol_table
+            .iter()
+            .map(|(k, s)| (*k, s.clone()))
+            .collect();
+        v.sort();
+        v
+    }
+}
